@@ -1016,6 +1016,13 @@ func (e *emitter) e2qCase(fn string) {
 		e.run(fn, []string{"related", Tag("len=%d", len(ids))}, len(ids) == 0, w.Strs(i2), w.I(oh2), w.I(ov2), w.F(mx), w.F(mn))
 		e.run(fn, []string{"related", "permuted"}, len(ids) == 0, w.Strs(shuffled(g, ids)), w.I(oh), w.I(ov), w.F(mx), w.F(mn))
 		e.run(fn, []string{"related", "identical"}, len(ids) == 0, w.Strs(ids), w.I(oh), w.I(ov), w.F(mx), w.F(mn))
+		if len(ids) > 0 {
+			// a call that FAILS after it has worked through the valid IDs (malformed last element), then the identical valid call: whatever
+			// the failed call left behind (pooled buffers, partly filled de-duplication sets) must not reach the next result
+			bad := append(append([]string{}, ids...), ids[len(ids)-1]+"x")
+			e.run(fn, []string{"related", "failing-tail"}, false, w.Strs(bad), w.I(oh), w.I(ov), w.F(mx), w.F(mn))
+			e.run(fn, []string{"related", "after-failed-call"}, false, w.Strs(ids), w.I(oh), w.I(ov), w.F(mx), w.F(mn))
+		}
 	}
 }
 
@@ -1107,6 +1114,11 @@ func (e *emitter) e2qaCase() {
 		}
 		e.run("E2QA", []string{"related", "permuted"}, len(ids) == 0, w.Strs(shuffled(g, ids)), w.I(oq), w.I(oa), w.I(E), w.I(O))
 		e.run("E2QA", []string{"related", "identical"}, len(ids) == 0, w.Strs(ids), w.I(oq), w.I(oa), w.I(E), w.I(O))
+		if len(ids) > 0 { // a failing call (malformed last element) and the identical valid call after it
+			bad := append(append([]string{}, ids...), ids[len(ids)-1]+"x")
+			e.run("E2QA", []string{"related", "failing-tail"}, false, w.Strs(bad), w.I(oq), w.I(oa), w.I(E), w.I(O))
+			e.run("E2QA", []string{"related", "after-failed-call"}, false, w.Strs(ids), w.I(oq), w.I(oa), w.I(E), w.I(O))
+		}
 	}
 }
 
